@@ -83,6 +83,72 @@ func (c *scriptedConn) PublishRequest(subject, reply string, data []byte) error 
 	return nil
 }
 
+// timedConn delivers a fixed schedule of messages to the inbox of the one request made on it.
+type timedConn struct {
+	scriptedConn
+	at   []time.Duration
+	msgs [][]byte
+	subd int32
+}
+
+func (c *timedConn) ChanSubscribe(subject string, ch chan *nats.Msg) (*nats.Subscription, error) {
+	atomic.AddInt32(&c.subd, 1)
+	return c.scriptedConn.ChanSubscribe(subject, ch)
+}
+
+func (c *timedConn) PublishRequest(subject, reply string, data []byte) error {
+	c.mu.Lock()
+	ch := c.subs[reply]
+	c.mu.Unlock()
+	t0 := time.Now()
+	go func() {
+		for i, m := range c.msgs {
+			time.Sleep(time.Until(t0.Add(c.at[i])))
+			select {
+			case ch <- &nats.Msg{Subject: reply, Data: m}:
+			case <-time.After(500 * time.Millisecond):
+				return
+			}
+		}
+	}()
+	return nil
+}
+
+// runSlowCallback: the first timeout pre-response announces a short deadline and the extension callback
+// it triggers takes longer than that; meanwhile a second pre-response with a long deadline arrives, and
+// the response comes well inside it. SendRequest finds, when the callback returns, an expired deadline
+// and the second pre-response: it may give up (timeout, one extension reported) or go on (two
+// extensions reported) - but once it has restarted the deadline with the long duration and told the
+// callbacks so, the response that arrives in time is what it returns.
+func runSlowCallback(rep int) rec {
+	d1 := time.Duration(20+5*(rep%3)) * time.Millisecond
+	conn := &timedConn{scriptedConn: scriptedConn{subs: map[string]chan *nats.Msg{}}}
+	conn.at = []time.Duration{0, d1 + d1/2, 8 * d1}
+	conn.msgs = [][]byte{[]byte(fmt.Sprintf(`timeout:"%d"`, d1/time.Millisecond)), []byte(`timeout:"2000"`), []byte(`{"result":{"done":true}}`)}
+	var ext []int
+	var mu sync.Mutex
+	resp := resprot.SendRequest(conn, "call.test.slow.m", nil, time.Second, func(d time.Duration) {
+		mu.Lock()
+		first := len(ext) == 0
+		ext = append(ext, int(d/time.Millisecond))
+		mu.Unlock()
+		if first {
+			time.Sleep(3 * d1)
+		}
+	})
+	kind := "result"
+	switch {
+	case resp.HasError() && resp.Error.Code == res.CodeTimeout:
+		kind = "timeout"
+	case resp.HasError():
+		kind = "error"
+	}
+	mu.Lock()
+	defer mu.Unlock()
+	return rec{"judge": "slowcb", "fail": "", "t0": 0, "script": [][]interface{}{}, "res": kind, "ext": append([]int{}, ext...), "released": true, "fast": true, "elapsed_ticks": 0.0,
+		"dbg": fmt.Sprintf("scripted connection: pre-response %v at 0, callback takes %v, pre-response 2s at %v, response at %v", d1, 3*d1, d1+d1/2, 8*d1)}
+}
+
 // runScriptedPair issues, on one goroutine, a request that is answered by a burst of n responses and then a
 // request nobody answers: the second must time out, whatever reached the first one's inbox after it returned.
 func runScriptedPair(n int) []rec {
@@ -366,6 +432,9 @@ func Run(c *core.Ctx) {
 			}
 		}
 	}
+	for rep := 0; rep < c.Pick(9, 60); rep++ {
+		good = append(good, runSlowCallback(rep))
+	}
 	untimely := 0
 	for _, r := range recs {
 		if r == nil {
@@ -379,6 +448,11 @@ func Run(c *core.Ctx) {
 	}
 	if untimely*3 > len(jobs) {
 		c.Inconclusive("%d of %d runs were off the time grid (machine too busy)", untimely, len(jobs))
+	}
+	for _, r := range good {
+		if _, ok := r.(rec)["judge"]; !ok {
+			r.(rec)["judge"] = "script"
+		}
 	}
 	core.CheckRecords(c, "TraceSendReq", "TraceSendReq.cfg", good, nil, func(i int, r interface{}, inv string) {
 		m := r.(rec)
